@@ -58,3 +58,11 @@ Theorem C01_subslot : forall p, wf p -> forall r s,
   Ledger.Inv (inject_Z (sp_G p)) (cells (sschedule p) r s).
 Proof. intros p H r s. exact (proj1 (sschedule_inv p H) r s). Qed.
 Print Assumptions C01_subslot.
+
+(* ---- second granularity, TEAMS (Model/SubSlotTeam.v: gate, seconds common to all members, credit at the best
+   member's efficiency, release of every member's last slot) *)
+Require Import SP.Model.SubSlotTeam SP.Proofs.SubSlotTeamProofs.
+Theorem C01_subslot_teams : forall p, twf p -> forall r s,
+  Ledger.Inv (inject_Z (tp_G p)) (cells (tschedule p) r s).
+Proof. intros p H r s. exact (proj1 (tschedule_inv p H) r s). Qed.
+Print Assumptions C01_subslot_teams.
